@@ -173,8 +173,7 @@ Definition dispatch_misc (kind : string) (args : list string) : option string :=
         | Some b, Some cp', Some i', Some rp' =>
             let s := of_bytes b in
             let e := mkDhcpEnv cp' rp' i' in
-            Some (verdict_ret (dhcp4_process (slice_fuel s) e s)
-                    (if known_C08_dhcp_reply_overrun e s then "dhcp4-reply-overruns-request-buffer" else "-"))
+            Some (verdict_ret (dhcp4_process (slice_fuel s) e s) "-")
         | _, _, _, _ => Some BADARGS end
     | _ => Some BADARGS end
   else if String.eqb kind "upnp" then
